@@ -49,7 +49,7 @@ structure Chan where
 inductive Plan where
   | noDefuse        -- the stream goes to the parser unchecked
   | rewind          -- defuse_xml(fp): scan, then fp.seek(0)
-  | wrapRaw         -- defuse_xml: DefusableReader(io.BufferedReader(fp)), scan, seek(0)   (repaired, C13-F1)
+  | wrapRaw         -- defuse_xml: DefusableReader(io.BufferedReader(fp)), scan, seek(0)   (sax.py:57-61, fix 1d3fb41)
   | wrapBuffered    -- defuse_xml: DefusableReader(fp), scan, seek(0)
   | secondOpen      -- a second stream is opened from the URL and scanned (rewind=False)
   | refuse          -- XMLResourceOSError "can't defuse ... not seekable"
@@ -157,12 +157,108 @@ def outcome (pl : Plan) (mustRefuse : Bool) (scanEnd bufLen : Nat) : Outcome :=
   | .noDefuse => .parsed
   | .rewind => if mustRefuse then .forbidden else .parsed
   | .secondOpen => if mustRefuse then .forbidden else .parsed
-  | .wrapRaw                 -- REPAIRED behaviour (notes/fixes/C13-raw-stream-defusable-reader.patch): as buffered.
-                             -- The current tree hands io.BufferedReader(fp) to the scan and cannot rewind it:
-                             -- every clean document ends in .oserror there (known finding C13-F1).
+  | .wrapRaw                 -- sax.py:57-61 (fix 1d3fb41): io.BufferedReader(fp) is wrapped like any other
+                             -- non-seekable buffered stream
   | .wrapBuffered =>
     if mustRefuse then .forbidden
     else if bufLen < scanEnd then .oserror else .parsed             -- Reader.seek 0 after the scan
   | .refuse => .oserror
+
+/-! ### how far the scan reads -/
+
+/-- `xml.dom.pulldom.default_bufsize` = 2**14 - 20: `DOMEventStream.getEvent` feeds the parser
+    `stream.read(bufsize)` blocks until an event is available -/
+def blockSize : Nat := 16364
+
+/-- `DefusableReader.__init__(fp, initial_buffer_size=64 * 1024)` (streams.py:30) -/
+def bufferSize : Nat := 65536
+
+/-- the scan of sax.py:78-80 as a reader script: `k` block reads -/
+def Reader.readBlocks : Nat → Reader → Reader
+  | 0, r => r
+  | k + 1, r => Reader.readBlocks k (r.read (some blockSize)).2
+
+/-- number of blocks fed before expat delivers START_ELEMENT: the start tag is complete when its
+    closing `>` — the byte at offset `tagEnd - 1` — has been fed -/
+def blocksFor (tagEnd : Nat) : Nat := (tagEnd + (blockSize - 1)) / blockSize
+
+/-- `_pos` of the reader when the scan of a clean document stops -/
+def scanEndOf (total tagEnd : Nat) : Nat := min total (blocksFor tagEnd * blockSize)
+
+/-- length of the initial buffer -/
+def bufLenOf (total : Nat) : Nat := min total bufferSize
+
+/-- the outcome for a document of `total` bytes whose first start tag ends at offset `tagEnd` -/
+def outcomeDoc (pl : Plan) (mustRefuse : Bool) (total tagEnd : Nat) : Outcome :=
+  outcome pl mustRefuse (scanEndOf total tagEnd) (bufLenOf total)
+
+/-! ### a schema build: every resource that is loaded -/
+
+/-- one XML resource loaded during a build -/
+structure Res where
+  id : Nat
+  base : BaseClass         -- class of its own base URL (xml_resource.py:277-281 looks at the resource's own)
+  ch : Chan
+  mustRefuse : Bool
+  total : Nat
+  tagEnd : Nat
+  deriving DecidableEq, Repr
+
+/-- how the loader treats a failure of the resource -/
+inductive Kind where
+  | main      -- the source given to the schema class: every error propagates
+  | incl      -- xs:include / xs:redefine / xs:override: `except OSError` → warning (loaders.py:120-146)
+  | imp       -- xs:import: `except (OSError, XMLResourceBlocked, XMLResourceForbidden)` → warning (loaders.py:188-201)
+  deriving DecidableEq, Repr
+
+/-- first-child / next-sibling encoding of the tree of loaded resources, in document order -/
+inductive Forest where
+  | nil
+  | cons (r : Res) (k : Kind) (children : Forest) (siblings : Forest)
+  deriving Repr
+
+inductive Ev where
+  | opened (r : Res)       -- XMLResource.open() entered
+  | scanned (r : Res)      -- defuse_xml ran on the stream (or on a second stream of the same URL)
+  | parsed (r : Res)       -- XMLResourceLoader._parse consumed the stream
+  | failed (r : Res) (o : Outcome)
+  deriving DecidableEq, Repr
+
+inductive Status where
+  | ok
+  | raised (o : Outcome)
+  deriving DecidableEq, Repr
+
+def resOutcome (m : Mode) (r : Res) : Outcome :=
+  outcomeDoc (plan m r.base r.ch) r.mustRefuse r.total r.tagEnd
+
+/-- XMLResource.__init__ → XMLResourceManager → open() → [defuse_xml] → _parse
+    (xml_resource.py:216-217, 472-495; xml_loader.py:72-77) -/
+def resEvents (m : Mode) (r : Res) : List Ev :=
+  .opened r ::
+    ((match plan m r.base r.ch with
+      | .noDefuse => []
+      | .refuse => []
+      | _ => [.scanned r]) ++
+     [if resOutcome m r = .parsed then .parsed r else .failed r (resOutcome m r)])
+
+def swallowed : Kind → Outcome → Bool
+  | .incl, .oserror => true
+  | .imp, .oserror => true
+  | .imp, .forbidden => true
+  | _, _ => false
+
+/-- the resources are loaded depth-first in document order (schemas.py:408, loaders.py:84-170):
+    a resource that was parsed loads its own inclusions/imports inside its constructor; an
+    exception leaves the constructor and reaches the handler of the statement that loaded it -/
+def build (m : Mode) : Forest → List Ev × Status
+  | .nil => ([], .ok)
+  | .cons r k c s =>
+    let self : List Ev × Status :=
+      if resOutcome m r = .parsed then (resEvents m r ++ (build m c).1, (build m c).2)
+      else (resEvents m r, .raised (resOutcome m r))
+    match self.2 with
+    | .ok => (self.1 ++ (build m s).1, (build m s).2)
+    | .raised o => if swallowed k o then (self.1 ++ (build m s).1, (build m s).2) else (self.1, .raised o)
 
 end XsVerif.Defuse
